@@ -56,7 +56,7 @@ class Check(FormulaCheck):
             'HEX2DEC(DEC2HEX(n)), DECIMAL(BASE(n,r),r), ARABIC(ROMAN(n)), ROMAN(n,form), IMREAL/IMAGINARY(COMPLEX(a,b)); numbers are integers and '
             'dyadic/decimal fractions of either sign (|x| <= 1e9), digits -6..6, significances of either sign; 1..3999 x forms 0..4 is exhaustive. '
             'non-trivial = oracle fully evaluated; distinct = distinct (function, arguments).')
-    ASSUMPTIONS = ('CEILING with positive number and negative significance, and significance 0, are not judged; ROUND tie direction is free',
+    ASSUMPTIONS = ('CEILING/FLOOR of a positive number with a negative significance may be an error or the adjacent multiple on the function\'s own side; significance 0 is not judged; ROUND tie direction is free',
                    'FACT arguments <= 170, FACTDOUBLE <= 300; bounded time is decided in line events (budget 20000+400*len), never in seconds',
                    'out-of-range arguments must give any error code, never a value')
 
@@ -121,10 +121,19 @@ class Check(FormulaCheck):
                 self.expect('C17/%s:%s%s' % (fn, why, ':negative-digits' if d < 0 else ''), ok, x=x, digits=d, got=r)
             s = rnd.choice([1, -1]) * rnd.choice([1, 2, 5, 10, 0.5, 0.25, 0.1, 0.05, 3, 7, 100, 1.5, rnd.randint(1, 50), round(rnd.uniform(0.01, 20), 2)])
             for fn in ('CEILING', 'FLOOR'):
-                if x > 0 and s < 0:
-                    continue
                 r = self.ev('%s(v_x,v_s)' % fn, v_x=x, v_s=s)
                 rec.nt((fn, x, s))
+                if x > 0 and s < 0:
+                    # the documented readings differ (an error, or the sign of the significance is ignored) - but under every one of them
+                    # a value, if any, is the adjacent multiple above a positive number for CEILING and below it for FLOOR
+                    if not self.is_err(r):
+                        R, S = Fr(r) if finite(r) else None, abs(Fr(s))
+                        bb = tight(r, x, s) if finite(r) else 0
+                        ok = R is not None and is_multiple(r, S, bb) and ((R >= X - bb and R - X < S + bb) if fn == 'CEILING' else (R <= X + bb and X - R < S + bb))
+                        self.expect('C17/%s:not-adjacent-multiple-on-documented-side:pos-neg' % fn, ok, x=x, significance=s, got=r)
+                    else:
+                        rec.case()
+                    continue
                 if not self.expect('C17/%s-not-a-number' % fn, finite(r), x=x, significance=s, got=r):
                     continue
                 R, S = Fr(r), abs(Fr(s))
@@ -179,6 +188,12 @@ class Check(FormulaCheck):
                 k = (X - M) / Y
                 ok = (M == 0 or sgn(M) == sgn(Y)) and abs(M) < abs(Y) + bb and abs(k - round(k)) <= BAND * max(1, abs(k))
             self.expect('C17/MOD', ok, x=x, y=y, got=m)
+            # whole numbers of any size: number = divisor*integer + MOD holds exactly (integers are exact, also beyond 2**53)
+            bx = rnd.choice([1, -1]) * rnd.choice([2 ** 53 + 1, 10 ** 17 + 3, 3 ** 40, 2 ** 64 - 1, math.factorial(25), rnd.randint(2 ** 53, 10 ** 30), rnd.randint(0, 10 ** 6)])
+            by = rnd.choice([1, -1]) * rnd.choice([2, 3, 7, 10, 1000003, 2 ** 53 + 1, rnd.randint(1, 10 ** 6), rnd.randint(2 ** 53, 10 ** 20)])
+            m = self.ev('MOD(v_x,v_y)', v_x=bx, v_y=by)
+            self.expect('C17/MOD:whole-numbers-exact', finite(m) and Fr(m) == bx % by, x=hex(bx), y=hex(by), got=m if not finite(m) else hex(int(m)), expected=hex(bx % by))
+            rec.nt(('bigmod', bx, by))
             n = rnd.randint(0, 170)
             frac = rnd.choice([0, 0, 0.5, 0.9])
             r = self.ev('FACT(v_n)', v_n=n + frac)
